@@ -347,18 +347,24 @@ def onEvent (e : Ev) : M Unit := do
         throw (ln, s!"model returns instance={want}", s!"val={o.val} err={o.err}")
     modify fun st => { st with cur := st.cur.del g }
 
-def explain (h : List Obs) : Except Err (Nat × List String) := do
+def explain (inj : List (Nat × Nat)) (h : List Obs) : Except Err (Nat × List String) := do
+  -- pre-registered resources (`Inject` before the goroutines start); instance `n` is `n + 1` in the model
+  let mut s0 := init
+  for (k, n) in inj do
+    match RM.inject s0 k (n + 1) with
+    | some s1 => s0 := s1
+    | none => throw (0, "model: Inject not enabled", "inject")
   let act : M Unit := do
     for e in events h do onEvent e
-  let (_, st) ← act.run { s := init }
+  let (_, st) ← act.run { s := s0 }
   return (st.n, st.tags)
 
 end RMx
 
-def explain (mode : String) (h : List Obs) : Except Err (Nat × List String) :=
+def explain (mode : String) (inj : List (Nat × Nat)) (h : List Obs) : Except Err (Nat × List String) :=
   if mode = "sf" then SFx.explain h
   else if mode = "lc" then LCx.explain h
-  else if mode = "rm" then RMx.explain h
+  else if mode = "rm" then RMx.explain inj h
   else .error (0, "unknown mode", mode)
 
 end GoZero.C07.Explain
